@@ -173,6 +173,50 @@ def frameOp (ws : List String) : String :=
     | _, _, _, _, _, _, _, _ => "bad-op"
   | _ => "bad-op"
 
+/-! ### `seq`: a convention (optionally with custom preserved masks), `init`, then any sequence of public-API operations -/
+
+def parseOp (t : String) : Option FrameOp :=
+  match t.splitOn ":" with
+  | ["sls", v] => v.toNat?.map .setLocalSize
+  | ["sla", v] => v.toNat?.map .setLocalAlign
+  | ["scs", v] => v.toNat?.map .setCallSize
+  | ["sca", v] => v.toNat?.map .setCallAlign
+  | ["uls", v] => v.toNat?.map .updLocalSize
+  | ["ula", v] => v.toNat?.map .updLocalAlign
+  | ["ucs", v] => v.toNat?.map .updCallSize
+  | ["uca", v] => v.toNat?.map .updCallAlign
+  | ["aat", v] => (hexNat? v).map .addAttrs
+  | ["cat", v] => (hexNat? v).map .clearAttrs
+  | ["sd", g, m] => do some (.setDirty (← g.toNat?) (← hexNat? m))
+  | ["ad", g, m] => do some (.addDirty (← g.toNat?) (← hexNat? m))
+  | ["sad"] => some .setAllDirty
+  | ["ssa", r] => r.toNat?.map .setSaReg
+  | ["rsa"] => some .resetSaReg
+  | ["rrz"] => some .resetRedZone
+  | ["uffr", d0, d1, d2, d3, sa, ok] => do
+    let sa ← if sa = "-" then some none else sa.toNat?.map some
+    some (.updateFuncFrame (← hexNat? d0) (← hexNat? d1) (← hexNat? d2) (← hexNat? d3) sa (ok = "1"))
+  | _ => none
+
+def seqOp (ws : List String) : String :=
+  match ws with
+  | [arch, cc, win, argStack, u0, u1, u2, u3, pm, ops] =>
+    match arch.toNat? >>= archOf, cc.toNat?, win.toNat?, argStack.toNat?, [u0, u1, u2, u3].mapM hexNat?,
+          (if pm = "-" then some none else ((pm.splitOn ",").mapM hexNat?).map some),
+          (if ops = "-" then some [] else (ops.splitOn ",").mapM parseOp) with
+    | some a, some cc, some win, some argStack, some us, some pm, some ops =>
+      match initCallConv a cc (win != 0) with
+      | none => "err InvalidArgument"
+      | some ci =>
+        let ci := match pm with
+          | some l => if l.length = 4 then ci.withPreserved (fun g => l.getD g 0) else ci
+          | none => ci
+        let used : Nat → Nat := fun g => if g < 4 then us.getD g 0 else 0
+        let f := ((Frame.init ci used argStack).applyAll ops).finalize
+        "ok " ++ fieldsText f ++ " | " ++ progOut a (prolog f) ++ " | " ++ progOut a (epilog f)
+    | _, _, _, _, _, _, _ => "bad-op"
+  | _ => "bad-op"
+
 def monOp (rest : String) : String :=
   match rest.splitOn " | " with
   | [fields, pro, epi] =>
@@ -193,6 +237,7 @@ def step (_ : Unit) (line : String) : Unit × String :=
   if line.startsWith "mon " then ((), monOp (line.drop 4).toString)
   else match words line with
     | "frame" :: rest => ((), frameOp rest)
+    | "seq" :: rest => ((), seqOp rest)
     | _ => ((), "bad-op")
 
 def main : IO Unit := do
